@@ -62,13 +62,12 @@ def main():
         print("demo: clean rc=%d, patched rc=%d" % (rc0, rc1))
         if not notests:
             t0 = time.time()
-            # the interpolator / caching / sampler tests under cherab/core/math take ~20 min on this shared machine: they are
-            # run only when the patch touches cherab/core/math (or with --fulltests); everything else always runs
-            touches_math = "cherab/core/math" in open(patch).read()
-            ignore = "" if (touches_math or "--fulltests" in sys.argv) else "--ignore=cherab/core/math "
-            meta["repo_tests_scope"] = "full suite" if not ignore else "full suite except cherab/core/math (untouched by the patch)"
-            rc, out = sh("PYTHONPATH=%s /venv/bin/python -m pytest -p usewt -q -p no:cacheprovider --timeout=1800 -n 8 %s"
-                         "--continue-on-collection-errors 2>&1 | tail -15" % (scratch, ignore), cwd=scratch, timeout=7200)
+            # full suite; BLAS pinned to one thread (the caching tests solve thousands of tiny systems: ~5 s single-threaded,
+            # half an hour with 16 BLAS threads fighting on a loaded machine) - results are identical
+            meta["repo_tests_scope"] = "full suite (OMP_NUM_THREADS=1, pytest -n 8)"
+            rc, out = sh("OMP_NUM_THREADS=1 OPENBLAS_NUM_THREADS=1 MKL_NUM_THREADS=1 PYTHONPATH=%s /venv/bin/python -m pytest -p usewt -q "
+                         "-p no:cacheprovider --timeout=1800 -n 8 --continue-on-collection-errors 2>&1 | tail -15" % scratch,
+                         cwd=scratch, timeout=7200)
             tail = out.strip().splitlines()[-1] if out.strip() else ""
             meta["repo_tests"] = tail
             meta["ran"].append("repository test-suite on patched copy (pytest -n 8): %s (%.0f s)" % (tail, time.time() - t0))
@@ -99,6 +98,18 @@ def main():
 def finish(meta, scratch, patch, demo):
     d = os.path.join(VERIF, "seeded", meta["name"])
     os.makedirs(d, exist_ok=True)
+    old_path = os.path.join(d, "meta.json")
+    if os.path.exists(old_path):          # a re-run (other checks, strengthened check) extends the record
+        old = json.load(open(old_path))
+        res = dict(old.get("results", {}))
+        for k, v in meta.get("results", {}).items():
+            res[k if k not in res else k + " (re-run)"] = v
+        meta["results"] = res
+        meta["ran"] = old.get("ran", []) + ["--- re-run ---"] + meta["ran"]
+        for k in ("repo_tests", "repo_tests_scope"):
+            if k not in meta and k in old:
+                meta[k] = old[k]
+        meta["caught"] = bool(meta.get("caught")) or bool(old.get("caught"))
     shutil.copy(patch, os.path.join(d, "patch.diff"))
     shutil.copy(demo, os.path.join(d, "demo.py"))
     with open(os.path.join(d, "meta.json"), "w") as f:
